@@ -179,7 +179,7 @@ func (commander *Commander) CreateTransaction(ctx context.Context, parameters Pa
 
 func (commander *Commander) SaveMeta(ctx context.Context, parameters Parameters, targetType string, targetID interface{}, m metadata.Metadata) error {
 	execContext := newExecutionContext(commander, parameters)
-	_, err := execContext.run(ctx, func(executionContext *executionContext) (*ledger.ChainedLog, chan struct{}, error) {
+	savedLog, err := execContext.run(ctx, func(executionContext *executionContext) (*ledger.ChainedLog, chan struct{}, error) {
 		var (
 			log *ledger.Log
 			at  = ledger.Now()
@@ -217,6 +217,10 @@ func (commander *Commander) SaveMeta(ctx context.Context, parameters Parameters,
 	}
 
 	if !parameters.DryRun {
+		// the entry may be an earlier one, found through the idempotency key: the event describes the entry
+		if payload, ok := savedLog.Data.(ledger.SetMetadataLogPayload); ok {
+			targetType, targetID, m = payload.TargetType, payload.TargetID, payload.Metadata
+		}
 		commander.monitor.SavedMetadata(ctx, targetType, fmt.Sprint(targetID), m)
 	}
 	return nil
@@ -256,6 +260,13 @@ func (commander *Commander) RevertTransaction(ctx context.Context, parameters Pa
 	}
 
 	if !parameters.DryRun {
+		// the entry may be an earlier one, found through the idempotency key: the event describes the entry
+		if revertedID := log.Data.(ledger.RevertedTransactionLogPayload).RevertedTransactionID; revertedID.Cmp(transactionToRevert.ID) != 0 {
+			transactionToRevert, err = commander.store.GetTransaction(ctx, revertedID)
+			if err != nil {
+				return nil, err
+			}
+		}
 		commander.monitor.RevertedTransaction(ctx, transactionToRevert, log.Data.(ledger.RevertedTransactionLogPayload).RevertTransaction)
 	}
 
@@ -290,7 +301,7 @@ func (commander *Commander) nextTXID(peek bool) *big.Int {
 
 func (commander *Commander) DeleteMetadata(ctx context.Context, parameters Parameters, targetType string, targetID any, key string) error {
 	execContext := newExecutionContext(commander, parameters)
-	_, err := execContext.run(ctx, func(executionContext *executionContext) (*ledger.ChainedLog, chan struct{}, error) {
+	deletedLog, err := execContext.run(ctx, func(executionContext *executionContext) (*ledger.ChainedLog, chan struct{}, error) {
 		var (
 			log *ledger.Log
 			at  = ledger.Now()
@@ -326,6 +337,10 @@ func (commander *Commander) DeleteMetadata(ctx context.Context, parameters Param
 	}
 
 	if !parameters.DryRun {
+		// the entry may be an earlier one, found through the idempotency key: the event describes the entry
+		if payload, ok := deletedLog.Data.(ledger.DeleteMetadataLogPayload); ok {
+			targetType, targetID, key = payload.TargetType, payload.TargetID, payload.Key
+		}
 		commander.monitor.DeletedMetadata(ctx, targetType, targetID, key)
 	}
 
